@@ -105,7 +105,9 @@ SPEC = {
                 text="Proved: the per-component choice of the solver in sum_products (one-step iff a single acyclic nonterminal; linear for "
                      "newton iff no rule has two edges inside the component; all other options passed through) and rename_duplicate_nodes "
                      "(repeated external nodes are renamed apart by fresh, connected copies); scc, by which the nonterminals are scheduled, "
-                     "returns a partition of the nonterminals (every nonterminal is scheduled exactly once). Bounded stand-in for the denotation: every "
+                     "returns a partition of the nonterminals (every nonterminal is scheduled exactly once); sum_product_edges hands einsum "
+                     "one tensor per index list, the edges' index lists in edge order after the identity factors of duplicated externals, "
+                     "pairwise different connected output nodes, and returns None without calling einsum exactly when a weight is missing. Bounded stand-in for the denotation: every "
                      "grammar of the stated scope x 4 semirings x dtype x method against an independent evaluation of the definition."),
     "C02": dict(level="other", pyvc=True, extra=[lambda ctx: _semvc_laws(ctx, only="star")],
                 text="Proved: control flow of fixed_point and newton (leaving the iteration without the stopping criterion => a warning was "
@@ -113,7 +115,8 @@ SPEC = {
                      "raises ValueError exactly on rules with two unresolved edges, scc partitions the nonterminals. Bounded: "
                      "values against an independent Kleene iteration. Convergence rates / 'error vanishes as tol does' are not decidable here."),
     "C03": dict(level="other", pyvc=True, extra=[],
-                text="Proved: rename_duplicate_nodes (the `ext + edge.nodes` overlap in the Jacobian is renamed apart correctly). Everything "
+                text="Proved: rename_duplicate_nodes (the `ext + edge.nodes` overlap in the Jacobian is renamed apart correctly, one identity "
+                     "factor per index pair) and the index bookkeeping of sum_product_edges at its einsum call. Everything "
                      "about derivatives is a bounded stand-in: gradients against exact dual-number derivatives / central differences."),
     "C04": dict(level="other", pyvc=True, extra=[lambda ctx: _semvc_laws(ctx, only="ViterbiSemiring.star")],
                 text="Proved: ViterbiSemiring.star is the least solution of y = 1 + x*y (the Viterbi sum_product the derivation weight must equal "
